@@ -98,7 +98,32 @@ def c01_strategy(ctx):
         lambda s: not (s["backend"] == "multiprocessing" and s["return_as"] != "list"))
 
 
+def c01_stress_strategy(ctx):
+    """Thread backend under a 1 us interpreter switch interval: pre-emption between any two bytecodes of the
+    dispatching caller and the completion callbacks, many trivial tasks, large numeric pre_dispatch."""
+    return st.fixed_dictionaries({
+        "mode": st.just("real"), "stress": st.just(True), "backend": st.just("threading"),
+        "n_jobs": st.sampled_from([2, 3, 4, 8]), "batch_size": st.sampled_from([1, 1, 2, "auto"]),
+        "pre_dispatch": st.sampled_from([50, 200, 1000, "all", "2*n_jobs", "3*n_jobs-1"]),
+        "return_as": st.sampled_from(["list", "generator"]), "managed": st.booleans(),
+        "calls": st.lists(st.fixed_dictionaries({"n": st.sampled_from([100, 300, 600, 1000]), "sleeps": st.just([0]),
+                                                 "gen_input": st.booleans()}), min_size=3, max_size=6),
+    })
+
+
 def run_c01(spec):
+    import sys
+    if spec.get("stress"):
+        old = sys.getswitchinterval()
+        sys.setswitchinterval(1e-6)
+        try:
+            return _run_c01(spec)
+        finally:
+            sys.setswitchinterval(old)
+    return _run_c01(spec)
+
+
+def _run_c01(spec):
     warnings.simplefilter("ignore")
     scratch = os.environ.get("VF_SCRATCH", "/tmp")
     logpath = os.path.join(scratch, "real-%d.log" % os.getpid())
@@ -129,7 +154,8 @@ def run_c01(spec):
             par.__exit__(None, None, None)
         if os.path.exists(logpath):
             os.unlink(logpath)
-    return {"nontrivial": nontrivial, "classes": ["real", "real-backend=" + spec["backend"], "return_as=" + spec["return_as"]]}
+    return {"nontrivial": nontrivial, "classes": ["real", "real-backend=" + spec["backend"], "return_as=" + spec["return_as"]]
+            + (["switch-interval-stress"] if spec.get("stress") else [])}
 
 
 # ---- C04 --------------------------------------------------------------------------------------------
